@@ -30,6 +30,7 @@ def run(ctx):
     c_eval_errors_fail(ctx)
     d_flag(ctx)
     e_hide_prev_turn(ctx)
+    e_failed_action_ends_turn(ctx)
     e_hide_total_and_consistent(ctx)
     e_marker_propagates(ctx)
 
@@ -374,6 +375,42 @@ def _index_provenance(fn):
                     holders[n.func.value.id] = prov[a.id]
                     changed = True
     return prov
+
+
+def e_failed_action_ends_turn(ctx):
+    """The failed action's result ends with `hide_prev_turn`.  generate_events loops "last event -> next events" until a Listen; for the marker as last event it must NOT compute
+    next steps from the rewound history: when that history was rebuilt from `messages` (new instance, other worker) the previous turn's `run dialog rails` is still pending in
+    it, wakes up, and the LLM answers the PREVIOUS user message after the internal-error text - a message no input rail approved in this turn (F148).
+    Decided: with `last_event["type"] == "hide_prev_turn"` no call of the next-step computation / of an action is reachable inside one iteration of the loop."""
+    t = ctx.tree.ast(RT1)
+    fn = find_function(t, "generate_events", "RuntimeV1_0")
+    if fn is None:
+        raise AnalysisError("RuntimeV1_0.generate_events not found", anchor=RT1 + "::RuntimeV1_0.generate_events")
+    loops = [l for l in walk_no_nested(fn) if isinstance(l, ast.While)]
+    ctx.floor("C03.e.failed-action-ends-turn", RT1, "event loop of generate_events", len(loops), 1)
+    from ..source import truth as _truth
+    cfg = CFG(fn)
+    for l in loops[:1]:
+        head = cfg.node_of(l.test)
+        work = [n for n in cfg.nodes if n.ast is not None and any(any(n.ast is y for y in ast.walk(x)) for x in l.body) and any(
+            isinstance(c, ast.Call) and src(c.func) in ("self._compute_next_steps", "self._process_start_action", "self._process_start_flow") for c in walk_no_nested(n.ast))]
+        facts = {"last_event['type'] == 'hide_prev_turn'": True, "event_type == 'hide_prev_turn'": True,
+                 "last_event['type'] == 'StartInternalSystemAction'": False, "last_event['type'] == 'start_flow'": False}
+        seen, stack = set(), [m for m, lab in head.succ if lab is True] if head is not None else []
+        while stack:
+            x = stack.pop()
+            if x in seen or x is head:
+                continue
+            seen.add(x)
+            tv = _truth(x.ast, facts) if x.kind == "test" and isinstance(x.ast, ast.expr) else None
+            stack.extend(m for m, lab in x.succ if not (tv is not None and lab in (True, False) and lab is not tv))
+        leak = [n for n in work if n in seen]
+        ok = head is not None and bool(work) and not leak
+        ctx.check("C03.e.failed-action-ends-turn", RT1, "RuntimeV1_0.generate_events", "hide_prev_turn as last event", ok,
+                  "after the marker of a failed action nothing is computed or executed: the turn ends with Listen" if ok else
+                  "with `hide_prev_turn` as last event generate_events goes on with `%s`: the next step is computed from the history BEFORE the hidden turn; if that history was rebuilt "
+                  "from `messages`, the previous turn's pending dialog step wakes up - the LLM is called and its answer to the previous message is appended to the internal-error reply"
+                  % (first_line(leak[0].ast, 60) if leak else "?"), line=(leak[0].line if leak else l.lineno))
 
 
 def e_hide_prev_turn(ctx):
